@@ -175,6 +175,9 @@ def gen_list(rng, B_ids, D_ids, depth, budget):
             out.append(rng.choice(D_ids))
         elif r < 0.6:
             out.append(rng.choice([201130, 201000, 202129, 202000, 222000, 236000, 237000, 224255, 204004, 204000, 205010]))
+        elif r < 0.64:
+            # descriptors that are in no table (incl. 0 00 000 and an undefined sequence): kept as placeholders in place
+            out.append(rng.choice([0, 0, 63255, 48001, 12250, 363255, 1]))
         else:
             out.append(rng.choice(B_ids))
     return out
@@ -201,11 +204,16 @@ def random_lists(ctx, tg, B, D):
         ctx.count('random_lists')
         ctx.evaluated(tuple(ids), any(100000 <= i < 200000 for i in ids),
                       sample=dict(ids=ids) if q == 1 else None)
+        as_text = q % 7 == 3     # the command line hands the ids over as zero-padded strings
+        if as_text:
+            ctx.count('random_lists_given_as_strings')
         try:
-            t = tg.template_from_ids(*ids)
+            t = tg.template_from_ids(*(['%06d' % i for i in ids] if as_text else ids))
         except Exception as e:
             ctx.violate('random/exception:%s' % type(e).__name__, 'template_from_ids(%r) raised %r' % (ids, e), dict(ids=ids), exc=e)
             continue
+        if any(i < 100000 and i not in B for i in ids) or any(i >= 300000 and i not in D for i in ids):
+            ctx.count('random_lists_with_undefined_descriptors')
         if t.original_descriptor_ids != ids:
             ctx.violate('random/original-ids-differ', 'flattening the tree of %r gives %r' % (ids, t.original_descriptor_ids), dict(ids=ids))
             continue
@@ -232,6 +240,10 @@ def undefined_cases(ctx, dec, B, D):
         ('under-221-class-without-data', [1001, 221001, 12001, 1002], 2, 12250),
         ('under-221-class-with-data', [1001, 221002, 5001, 12001, 1002], 2, 5250),
         ('under-221-last-of-range', [1001, 221002, 12001, 12004, 1002], 3, 20250),
+        ('zero-descriptor-top-level', [1001, 12001, 2001], 1, 0),
+        ('zero-descriptor-last', [1001, 12001, 2001], 2, 0),
+        ('zero-descriptor-in-replication', [1001, 102002, 12001, 2001], 2, 0),
+        ('zero-descriptor-under-221', [1001, 221002, 12001, 12004, 1002], 2, 0),
     ]
     reps = 6 if ctx.quick else 40
     n = 0
